@@ -18,7 +18,7 @@ ASSUMPTIONS = ['numeric option values range over [-3,4] (reals) / -3..4 (integer
                'the documented domains are those of docs/ and the class docstrings (oracle table in this file)']
 BOUNDS = {'quick': '45 numeric options x any value in range; 12 cross-option rules with all presence-flag combinations; 14 answer formats',
           'thorough': 'same (the space is exhausted in the quick tier)'}
-OUTSIDE = ['wrong-type values beyond the catalogue', 'IntegralGrader options (scipy absent)', 'plugin-registered defaults']
+OUTSIDE = ['non-finite percentage texts (nan%, inf%)', 'wrong-type values beyond the catalogue', 'IntegralGrader options (scipy absent)', 'plugin-registered defaults']
 DEADLINE = {'quick': 150, 'thorough': 600}
 FUNCS = ['ObjectWithSchema.__init__/validate_config', 'voluptuous.Schema/Range/All/Any/NotIn/Length/Coerce (vendored)', 'validatorfuncs.Positive/NonNegative/NumberRange/'
          'PercentageString/is_shape_specification', 'ItemGrader.schema_answers/validate_single_answer', 'ListGrader.__init__/schema_answers/validate_grouping',
@@ -116,6 +116,39 @@ def h_numeric(E, key):
         stored = get(obj)
         E.check('stored-value-is-the-supplied-one', stored is v or near_eq(stored, v))
     return err or 'ok'
+
+
+PERCENT_STRINGS = ['0%', '0.0%', ' 0 %', '5%', '0.5%', '100%', '250%', '-1%', '-0.001%', '-0%', 'abc%', '%', '5 %', '1e-3%', '5%%', '+5%', '5', '', '5 percent', '.5%', '5.%',
+                   '00%', '1_0%']
+
+
+def _percent_ok(text):
+    """documented domain of a tolerance given as text: a non-negative number followed by a percent sign (surrounding blanks ignored)"""
+    work = text.strip()
+    if not work.endswith('%'):
+        return False
+    try:
+        return float(work[:-1]) >= 0
+    except ValueError:
+        return False
+
+
+def h_percent_strings(E, cls):
+    """tolerance given as text: constructed iff it reads as a non-negative percentage (zero included); the stored value is the canonical 'p%'"""
+    import mitxgraders as m
+    from voluptuous import Error as Invalid
+    from mitxgraders.exceptions import ConfigError
+    text = E.choice('tolerance', PERCENT_STRINGS)
+    kw = dict(answers={'lower': '1', 'upper': '2', 'summand': 'n', 'summation_variable': 'n'}) if cls == 'SumGrader' else dict(answers='1')
+    try:
+        g = getattr(m, cls)(tolerance=text, **kw)
+    except (Invalid, ConfigError):
+        E.check('percentage-text-accepted-iff-non-negative-percentage', not _percent_ok(text))
+        return 'refused'
+    E.check('percentage-text-accepted-iff-non-negative-percentage', _percent_ok(text))
+    stored = g.config['tolerance']
+    E.check('stored-percentage-has-the-supplied-value', isinstance(stored, str) and stored.endswith('%') and float(stored[:-1]) == float(text.strip()[:-1]))
+    return 'built'
 
 
 def _restricted(dom):
@@ -532,6 +565,8 @@ def harnesses(tier):
     for key, (build, kind, dom, get) in TABLE().items():
         if kind == 'real' and _restricted(dom):
             add(h_numeric_nan, 'numeric_nan', dict(option=key), 'NaN as python float and numpy float')
+    for cls in ('FormulaGrader', 'NumericalGrader', 'MatrixGrader', 'SumGrader'):
+        add(h_percent_strings, 'percent_strings', dict(cls=cls), '23 texts incl. zero, negative, malformed, padded', validate=False)
     for form in ('list', 'string', 'plain'):
         add(h_list_lengths, 'list_lengths', dict(cls='SingleListGrader', form=form), '1-2 answer entries x 1-2 alternatives each, list lengths 1..3')
     for i in range(len(ANSWERS)):
